@@ -11,9 +11,12 @@ CHECKS = {
  "C03": ("exploration", "Invalid-transaction profile (nonce low/high/overflow, funds, intrinsic gas, fee below base fee, priority above max, sender with code, validity depending on earlier txs, nonce check on/off): outcomes incl. InvalidTransaction payloads and bundle equal to in-order revm; commit monitor forbids committing an invalid tx / skipping a valid one.", "§3 C03", PIPE + "; oracle: Skipped payload equality + bundle + commit monitor"),
  "C04": ("fault_enumeration", "Fault plans on the simulated database (persistent / fail-once / fail-nth errors on keys the reference reads, keys only a stale attempt reads, the beneficiary, random keys): persistent faults must give the reference's Ok/Err, failing index, error, exact outcome prefix and prefix bundle; transient faults are either absorbed (full result) or reported as a database error with an exact prefix.", "§3 C04", PIPE + " + injected database errors; oracle: reference on the same faulty database, exact-prefix rule"),
  "C05": ("exploration", "Strict-mode runs (park never times out, no spurious wake-up) of all profiles plus injected database errors and panics on chosen thread roles: the run must finish inside the fair phase (no deadlock = no runnable task, no livelock = step bound), the original panic payload must reach the caller, no other panic.", "§3 C05", PIPE + " in strict mode + panic/error injection; oracle: termination (engine deadlock detection, bounded fair phase), panic payload identity"),
+ "C06": ("exploration", "Relation between five executions of one block: simulated parallel run, simulated parallel run with another worker count and schedule, min_parallel_txs above the block size, force_sequential, fallback_sequential() entry; all profiles, all four delegated-safety policy combinations, a quarter of the cases on a persistently faulty database. All five must agree on Ok/Err, failing index and error, outcomes and bundle.", "§3 C06", PIPE + "; oracle: run-to-run equality across configurations and entry points (no external reference needed, so policy-enabled blocks are covered)"),
  "C07": ("exploration", "Beneficiary profile (beneficiary as EOA/sender/recipient/contract/absent/near-overflow balance, zero and non-zero rewards, legacy/1559 fees, readers of COINBASE balance/code/storage, all forks): outcomes, bundle and every committed delta (which contains the beneficiary account) equal to in-order revm.", "§3 C07", PIPE + "; oracle: outcomes + bundle + per-commit beneficiary delta"),
  "C08": ("exploration", "Lifecycle profile on Frontier..Osaka (selfdestruct, CREATE/CREATE2, re-creation, constructor storage, empty-touch, probes of balance/code/slots before and after): outcomes, bundle (statuses, reverts) and commit deltas equal to in-order revm.", "§3 C08", PIPE + "; oracle: outcomes + bundle + commit monitor"),
  "C09": ("exploration", "Code profile (deployments followed by calls and EXTCODE* probes; Prague+: EIP-7702 authorisation lists that set / re-point / clear / set again, repeated and invalid authorities): outcomes, bundle and commit deltas equal to in-order revm.", "§3 C09", PIPE + "; oracle: outcomes + bundle + commit monitor"),
+ "C11": ("exploration", "Precompile profile: harness precompiles (bank, observer, static mutator, fault ignorer, halter, state-dependent fatal) registered in Grevm and, through DynParallelPrecompile::to_alloy(), in the stock-revm reference; called directly, nested, via STATICCALL/DELEGATECALL, inside reverting frames, touching accounts other transactions and the beneficiary touch; every facade call is a schedule point; a quarter of the cases on a persistently faulty database (an ignored facade fault must still be fatal). Outcomes (gas charged once), bundle (no residue of discarded attempts), commit deltas and errors equal to the reference.", "§3 C11", PIPE + " + harness precompiles; oracle: outcomes + bundle + commit monitor + error equality"),
+ "C13": ("exploration", "Reserve profile (Prague+/Osaka): delegated accounts whose delegate code sends value / endows CREATE / self-destructs, own later transactions at assorted positions, balances at, just above and just below the required suffix sum, credits before debits, inner reverts. Policy on: the simulated parallel run must agree with force_sequential, fallback_sequential(), another worker count and the threshold path (outcomes, bundle, errors), and the fundability invariant must hold (an account that could pay for all its block transactions at block start is never skipped for lack of funds). Policy off: tied to stock revm like C01.", "§3 C13", PIPE + "; oracle: path agreement under schedules + fundability invariant; stock revm when the policy is off"),
  "C10": ("exploration", "After every simulated execute() on a cold cache (1 or 2 consecutive blocks on the same ParallelState, Reverts or PlainState retention) every account, slot and code hash the reference touched is read back through the returned ParallelState and compared with revm State; second-block outcomes and the accumulated bundle are compared too.", "§3 C10", PIPE + "; oracle: read-back equality against revm State (Database interface), two-block bundle equality"),
 }
 
